@@ -189,6 +189,30 @@ def classify_line(line):
     return "?"
 
 
+def backlog_dgrams(ctx, proto, n):
+    """(template datagrams, n distinct data datagrams, most of them decodable) of one exporter"""
+    rng = ctx.rng
+    setup, data = [], []
+    if proto in ("ipfix", "netflow9"):
+        setup, data = gen_flow.session(rng, "ipfix" if proto == "ipfix" else "v9", ntpl=3, ndata=n)
+    elif proto == "netflow5":
+        seen = set()
+        while len(data) < n:
+            m = c08.rand_dgram(rng)
+            if tuple(m) not in seen and len(m) <= 1464:
+                seen.add(tuple(m))
+                data.append(m)
+    else:
+        g = gen_sflow.Gen(rng)
+        seen = set()
+        while len(data) < n:
+            m, _ = g.datagram(budget=600)
+            if tuple(m) not in seen:
+                seen.add(tuple(m))
+                data.append(m)
+    return setup, data
+
+
 def backlog_stage(ctx, thorough):
     """the real run() of each protocol with its workers stalled until the datagram queue is full (1000 queued, one per
     worker, one the receive loop cannot queue, a few in the socket), then released - no shutdown in between: every
@@ -197,25 +221,7 @@ def backlog_stage(ctx, thorough):
     drv = ctx.go_build_test("vflow", ["vflow/shutdown_verif_test.go"])
     d = ctx.subdir("c13backlog")
     for proto in c12.PROTOS:
-        rng = ctx.rng
-        setup, data = [], []
-        if proto in ("ipfix", "netflow9"):
-            setup, data = gen_flow.session(rng, "ipfix" if proto == "ipfix" else "v9", ntpl=3, ndata=1030)
-        elif proto == "netflow5":
-            seen = set()
-            while len(data) < 1030:
-                m = c08.rand_dgram(rng)
-                if tuple(m) not in seen and len(m) <= 1464:
-                    seen.add(tuple(m))
-                    data.append(m)
-        else:
-            g = gen_sflow.Gen(rng)
-            seen = set()
-            while len(data) < 1030:
-                m, _ = g.datagram(budget=600)
-                if tuple(m) not in seen:
-                    seen.add(tuple(m))
-                    data.append(m)
+        setup, data = backlog_dgrams(ctx, proto, 1030)
         dg = os.path.join(d, "dgrams-%s.json" % proto)
         with open(dg, "w") as fh:
             json.dump({"setup": setup, "data": data}, fh)
